@@ -30,10 +30,10 @@ CORPUS = [
     # F13: sliding-window reduction over an array that has a zero-length axis elsewhere raises
     ("F13", ("swv", ("src", 0), 1, 0, "sum"), [_src((1, 4, 0), ((1,), (2, 1, 1), (0,)))]),
     # F14: sliding-window reduction of a sliding-window reduction raises at lowering (adjust_chunks mismatch)
-    ("F14", ("swv", ("swv", ("src", 0), 2, 0, "max"), 1, 0, "max"),
+    ("F11a", ("swv", ("swv", ("src", 0), 2, 0, "max"), 1, 0, "max"),
      [(np.array([[0, 7, 14, -2, 5, 12], [-4, 3, 10, 17, 1, 8]], dtype="int64"), ((1, 1), (5, 1)))]),
     # F15: repeat over take over stack raises at lowering (adjust_chunks mismatch)
-    ("F15", ("repeat", ("take", ("stack", (("src", 0), ("src", 1)), 0), (-1, 3, 3, -4), 2), 2, 2),
+    ("F11b", ("repeat", ("take", ("stack", (("src", 0), ("src", 1)), 0), (-1, 3, 3, -4), 2), 2, 2),
      [_src((5, 4), ((3, 2), (1, 1, 1, 1)), add=2), _src((5, 4), ((2, 3), (1, 3)), mul=5, add=2, mod=13, off=6)]),
     # F16: integer-list index (take) of a broadcast_to raises
     ("F16", ("take", ("broadcast_to", ("src", 0), (1, 5)), (0, 1), 1), [(np.array([-1, 6, 13, -3, 4], dtype="int64"), ((2, 3),))]),
